@@ -65,6 +65,28 @@ func (e *Engine) stub(fn *ssa.Function, args []any) (any, bool) {
 			}
 		}
 		return SymBool{"(str.prefixof " + strE(args[1]) + " " + strE(args[0]) + ")"}, true
+	case "strings.Cut":
+		if a, ok := args[0].(string); ok {
+			if b, ok := args[1].(string); ok {
+				x, y, f := strings.Cut(a, b)
+				return Tuple{x, y, f}, true
+			}
+		}
+		s, sep := strE(args[0]), strE(args[1])
+		idx := "(str.indexof " + s + " " + sep + " 0)"
+		found := "(str.contains " + s + " " + sep + ")"
+		before := fmt.Sprintf("(ite %s (str.substr %s 0 %s) %s)", found, s, idx, s)
+		after := fmt.Sprintf("(ite %s (str.substr %s (+ %s (str.len %s)) (- (str.len %s) (+ %s (str.len %s)))) \"\")", found, s, idx, sep, s, idx, sep)
+		return Tuple{SymStr{before}, SymStr{after}, SymBool{found}}, true
+	case "strings.Contains":
+		if a, ok := args[0].(string); ok {
+			if b, ok := args[1].(string); ok {
+				return strings.Contains(a, b), true
+			}
+		}
+		return SymBool{"(str.contains " + strE(args[0]) + " " + strE(args[1]) + ")"}, true
+	case "strings.Index":
+		return SymInt{"(str.indexof " + strE(args[0]) + " " + strE(args[1]) + " 0)"}, true
 	case "strings.TrimPrefix":
 		s, p := strE(args[0]), strE(args[1])
 		return SymStr{fmt.Sprintf("(ite (str.prefixof %s %s) (str.substr %s (str.len %s) (- (str.len %s) (str.len %s))) %s)", p, s, s, p, s, p, s)}, true
